@@ -9,6 +9,7 @@ import (
 	"path"
 	"strconv"
 
+	"github.com/martian-lang/martian/martian/syntax"
 	"github.com/martian-lang/martian/martian/util"
 )
 
@@ -177,6 +178,13 @@ type VerifForkInfo struct {
 	Index  map[string]string
 }
 
+func verifKindName(k syntax.CallGraphNodeType) string {
+	if k == syntax.KindStage {
+		return "stage"
+	}
+	return "pipeline"
+}
+
 // VerifForks lists every fork of every node.
 func (self *Pipestance) VerifForks() []VerifForkInfo {
 	var r []VerifForkInfo
@@ -184,7 +192,7 @@ func (self *Pipestance) VerifForks() []VerifForkInfo {
 		for _, f := range n.forks {
 			info := VerifForkInfo{
 				Node:   n.GetFQName(),
-				Kind:   string(n.call.Kind()),
+				Kind:   verifKindName(n.call.Kind()),
 				Fqname: f.fqname,
 				Path:   f.path,
 				Index:  make(map[string]string, len(f.forkId)),
